@@ -173,4 +173,24 @@ def fam_nest():
     sm = {'codec': [{'S': 1, 'L': 1, 'M': 1, 'D': 2}]}
     return [{'sd': rec, 'kinds': ['codec'], 'params': sm}, {'sd': a, 'kinds': ['codec'], 'params': sm}, {'sd': b, 'kinds': ['codec'], 'params': sm}]
 
-FAMILIES = {'default': fam_default, 'nocopy': fam_nocopy, 'unknown': fam_unknown, 'ids': fam_ids, 'nest': fam_nest, 'evolve': fam_evolve, 'evolve_full': lambda: fam_evolve(6), 'required': fam_required, 'bytes8': lambda: fam_bytes(8), 'bytes12': lambda: fam_bytes(12), 'scalar': fam_scalar, 'list': fam_list, 'map': fam_map}
+def fam_threshold(full=False):
+    th = StructDef('ThS', [Field(1, 'default', S('string')), Field(2, 'default', ('list', S('i64'))), Field(3, 'default', S('binary')),
+                           Field(4, 'default', ('list', S('i8'))), Field(5, 'default', ('list', S('i16')))])
+    slens = [255, 256, 257] + ([2047, 2048, 2049] if full else [2048])
+    ps = [{'slen': x, 'llen': 0} for x in slens]
+    llens = [31, 32, 33] + ([255, 256, 257] if full else [])
+    ps += [{'slen': 0, 'llen': x} for x in llens]
+    ps += [{'slen': 250, 'llen': 31}, {'slen': 3, 'llen': 33}]
+    return [{'sd': th, 'kinds': ['codec'], 'params': {'codec': ps}}]
+
+def fam_dec2():
+    a = StructDef('D2A', [Field(1, 'default', S('string')), Field(2, 'default', ('list', S('i64'))), Field(3, 'optional', S('i32'), ptr=True),
+                          Field(4, 'default', ('list', S('string')))])
+    b = StructDef('D2B', [Field(1, 'default', ('map', S('string'), S('i16'))), Field(2, 'default', ('struct', LEAF, True)), Field(3, 'default', S('binary'))])
+    ps = [None, {'slen': 255, 'llen': 3}, {'slen': 7, 'llen': 33}, {'slen': 2040, 'llen': 1}]
+    out = []
+    for (x, y) in ((a, a), (a, b), (b, a)):
+        out.append({'w': x, 't': y, 'kinds': ['dec2'], 'params': {'dec2': ps if x is a and y is a else [None]}})
+    return out
+
+FAMILIES = {'threshold': fam_threshold, 'threshold_full': lambda: fam_threshold(True), 'dec2': fam_dec2, 'default': fam_default, 'nocopy': fam_nocopy, 'unknown': fam_unknown, 'ids': fam_ids, 'nest': fam_nest, 'evolve': fam_evolve, 'evolve_full': lambda: fam_evolve(6), 'required': fam_required, 'bytes8': lambda: fam_bytes(8), 'bytes12': lambda: fam_bytes(12), 'scalar': fam_scalar, 'list': fam_list, 'map': fam_map}
